@@ -101,6 +101,25 @@ def walk(node):
                     stack.append(v)
 
 
+def walk_parents(node):
+    """pre-order over all dict nodes, yielding (node, [ancestors, outermost first])"""
+    stack = [(node, [])]
+    while stack:
+        n, anc = stack.pop()
+        if isinstance(n, dict):
+            a2 = anc
+            if "k" in n:
+                yield n, anc
+                a2 = anc + [n]
+            for v in reversed(list(n.values())):
+                if isinstance(v, (dict, list)):
+                    stack.append((v, a2))
+        elif isinstance(n, list):
+            for v in reversed(n):
+                if isinstance(v, (dict, list)):
+                    stack.append((v, anc))
+
+
 def walk_no_closure(node):
     stack = [node]
     first = True
